@@ -149,19 +149,21 @@ func VerifH03dArchiveBehindGate() {
 	verifrt.Concurrent(-1)
 	base := verifrt.FSRoot()
 	root := base + "/site"
-	verifrt.FSPut(root+"/s/p", []byte("P"))
+	verifrt.FSPut(root+"/s/p", []byte("#SECRET#")) // (a marker that no redirect page or archive header contains)
 	verifrt.FSPut(root+"/t", []byte("T"))
 	verifrt.FSPut(root+"/d/x", []byte("X"))
 	fsrv := staticfiles.FileServer{Root: http.Dir(root)}
 	verifrt.Stub("(github.com/tmpim/casket/caskethttp/browse.ArchiveType).GetWriter", func(browse.ArchiveType) archiver.Writer { return &zzArchive03{} })
 	br := browse.Browse{Next: fsrv, Configs: []browse.Config{{PathScope: "/", Fs: fsrv, ArchiveTypes: []browse.ArchiveType{browse.ArchiveTar}, BufferSize: 64}}}
 	var gate httpserver.Handler
+	// the rule may be written with a trailing slash ("what is inside /s/")
+	res := []string{"/s", "/s/"}[verifrt.Choose("rule-spelling", 2)]
 	if verifrt.Choose("gate", 2) == 0 {
-		gate = basicauth.BasicAuth{Next: br, SiteRoot: root, Rules: []basicauth.Rule{{Username: "u", Password: func(pw string) bool { return pw == "pw" }, Resources: []string{"/s"}}}}
+		gate = basicauth.BasicAuth{Next: br, SiteRoot: root, Rules: []basicauth.Rule{{Username: "u", Password: func(pw string) bool { return pw == "pw" }, Resources: []string{res}}}}
 	} else {
-		gate = internalsrv.Internal{Next: br, Paths: []string{"/s"}}
+		gate = internalsrv.Internal{Next: br, Paths: []string{res}}
 	}
-	dir := []string{"/", "/s/", "/d/", "/d/../", "/s/../"}[verifrt.Choose("dir", 5)]
+	dir := []string{"/", "/s/", "/d/", "/d/../", "/s/../", "/s", "/d/../s"}[verifrt.Choose("dir", 7)]
 	if dir == "/" || dir == "/d/../" || dir == "/s/../" {
 		// the archive of a directory that CONTAINS the protected one: the input class of the recorded known finding
 		verifrt.Tag("archive-of-an-ancestor-of-the-protected-directory")
@@ -170,6 +172,6 @@ func VerifH03dArchiveBehindGate() {
 	r = r.WithContext(context.WithValue(r.Context(), httpserver.OriginalURLCtxKey, *r.URL))
 	w := &zzW03{}
 	status, _ := gate.ServeHTTP(w, r)
-	verifrt.Assert(!strings.Contains(string(w.body), "P"), "protected-content-not-in-archive")
+	verifrt.Assert(!strings.Contains(string(w.body), "#SECRET#"), "protected-content-not-in-archive")
 	verifrt.Observe("archive", status, w.status, strings.Contains(string(w.body), "X"))
 }
